@@ -92,6 +92,7 @@ pub fn run_cli(args: Vec<String>) {
         "oncechk" => suites::oncechk(&mut rng, count, &mut out),
         "x86prog" => suites::x86prog(&mut rng, count, &mut out),
         "optrun" => suites::optrun(&mut rng, count, &mut out),
+        "optcheck" => suites::optcheck(&mut rng, count, &mut out),
         "irecho" => suites::irecho(&mut rng, count, &mut out),
         "sv" => dsuites::smallvec(&mut rng, count, &mut out),
         "expr" => dsuites::expr(&mut rng, count, &mut out),
